@@ -30,6 +30,10 @@ for chunk, delay in sched["chunks"]:
     os.write(fd, bytes.fromhex(chunk))
     if delay:
         time.sleep(delay)
+if sched.get("linger"):
+    # a program that closes its standard error and goes on working for a while before it exits
+    os.close(2)
+    time.sleep(sched["linger"])
 sys.exit(sched["status"])
 '''
 
@@ -76,7 +80,7 @@ def chunkings(rnd, text):
     return parts
 
 
-def run_mode(mode, text, sched, workdir, extra_args=(), parent_env=None, lib_dir=None, brk=None, marker='-r'):
+def run_mode(mode, text, sched, workdir, extra_args=(), parent_env=None, lib_dir=None, brk=None, marker='-r', supress=False):
     env = dict(os.environ, PYTHONPATH=common.REPO, WDV_KEEP='kept')
     env.pop('WAYLAND_DEBUG', None)
     env.pop('LD_LIBRARY_PATH', None)
@@ -87,9 +91,9 @@ def run_mode(mode, text, sched, workdir, extra_args=(), parent_env=None, lib_dir
     if mode == 'load':
         p = os.path.join(workdir, 'log.txt')
         open(p, 'w', encoding='utf-8').write(text)
-        r = subprocess.run([sys.executable, '-B', main, '-C'] + (['-b', brk] if brk else []) + ['-l', p], input='q\n', capture_output=True, text=True, env=env, timeout=120)
+        r = subprocess.run([sys.executable, '-B', main, '-C'] + (['--supress'] if supress else []) + (['-b', brk] if brk else []) + ['-l', p], input='q\n', capture_output=True, text=True, env=env, timeout=120)
     elif mode == 'pipe':
-        r = subprocess.run([sys.executable, '-B', main, '-C'] + (['-b', brk] if brk else []) + ['-p'], input=text, capture_output=True, text=True, env=env, timeout=120)
+        r = subprocess.run([sys.executable, '-B', main, '-C'] + (['--supress'] if supress else []) + (['-b', brk] if brk else []) + ['-p'], input=text, capture_output=True, text=True, env=env, timeout=120)
     else:
         sp = os.path.join(workdir, 'sched.json')
         json.dump(sched, open(sp, 'w'))
@@ -98,7 +102,7 @@ def run_mode(mode, text, sched, workdir, extra_args=(), parent_env=None, lib_dir
         env['WDV_SCHED'] = sp
         env['WDV_DUMP'] = os.path.join(workdir, 'dump.json')
         pre = ['--libwayland', lib_dir] if lib_dir else []
-        r = subprocess.run([sys.executable, '-B', main, '-C'] + (['-b', brk] if brk else []) + pre + [marker, sys.executable, hp] + list(extra_args), input='q\n', capture_output=True, text=True, env=env, timeout=120)
+        r = subprocess.run([sys.executable, '-B', main, '-C'] + (['--supress'] if supress else []) + (['-b', brk] if brk else []) + pre + [marker, sys.executable, hp] + list(extra_args), input='q\n', capture_output=True, text=True, env=env, timeout=120)
     return r
 
 
@@ -147,17 +151,20 @@ def run(res):
         lib_dir = rnd.choice([None, None, libdir])
         # a breakpoint matcher: its `Stopped at` notices are part of what every mode shows
         brk = rnd.choice([None, None, 'wl_registry', '.done', 'wl_display', '.sync, .get_registry'])
+        sup = rnd.random() < 0.3 or k == 3  # --supress hides the program's non-Wayland stderr lines in every mode - and never its stdout
+        if k == 2 or (res.tier != 'quick' and k % 40 == 2):
+            sched['linger'] = 1.4         # the program closes its stderr, works on for longer than the reader thread's join timeout, then exits
         try:
-            rl = run_mode('load', text, sched, work, brk=brk)
-            rp = run_mode('pipe', text, sched, work, brk=brk)
+            rl = run_mode('load', text, sched, work, brk=brk, supress=sup)
+            rp = run_mode('pipe', text, sched, work, brk=brk, supress=sup)
             marker = rnd.choice(['-r', '-r', '--run', '-Cr'])          # the run marker on its own, spelled out, or closing a cluster
-            rr = run_mode('run', text, sched, work, extra, penv, lib_dir, brk=brk, marker=marker)
+            rr = run_mode('run', text, sched, work, extra, penv, lib_dir, brk=brk, marker=marker, supress=sup)
         except subprocess.TimeoutExpired as e:
             res.disagree('a mode hung', dict(text=text, sched=sched), None, repr(e), sig={'category': 'timeout'})
             continue
         res.evaluations += 3
         dl, dp, dr = display(rl.stdout), display(rp.stdout), display(rr.stdout)
-        case = dict(text=text, sched=sched, extra=extra, parent_env=penv, lib_dir=lib_dir, brk=brk)
+        case = dict(text=text, sched=sched, extra=extra, parent_env=penv, lib_dir=lib_dir, brk=brk, supress=sup)
         if not (dl == dp == dr):
             res.disagree('file, pipe and run mode display different things', case, None,
                          {'load': dl[-6:], 'pipe': dp[-6:], 'run': dr[-6:], 'stderr_run': rr.stderr[-400:]},
